@@ -131,3 +131,75 @@ def sig_match(mod, plan, viol, entry):
             if val not in m[name]:
                 return False
     return bool(m)
+
+
+# ---- C10: accepted values that the CER/DER encoders of the same family mishandle -------------
+
+def _c10_family(plan):
+    d = plan.get('decoder')
+    return plan['workload']['decoder'] if d == 'own' else d
+
+
+def _c10_clean_under_ber(mod, plan):
+    p2 = copy.deepcopy(plan)
+    p2['decoder'] = 'ber'
+    if p2['workload']['codec'] in ('cer', 'der'):
+        pass        # the input bytes stay what they were; only the decoder/encoder family changes
+    res = mod.execute(p2)
+    return res['status'] != 'violation'
+
+
+def _has_optional_constructed(desc):
+    from simkit import universe as U
+    if desc['k'] in ('SEQ', 'SET'):
+        for f in desc['fields']:
+            if f['opt'] != 'R' and f['d']['k'] in ('SEQ', 'SET', 'SEQOF', 'SETOF'):
+                return True
+    return any(_has_optional_constructed(c) for c in U.children(desc))
+
+
+@classifier('f15_canonical_time_syntax_not_checked_by_decoder')
+def f15(mod, plan, viol):
+    from simkit import universe as U
+    return (viol['sig'][0] == 'encoder-rejects-accepted-value' and _c10_family(plan) in ('cer', 'der')
+            and U.has_kind(plan['workload']['desc'], U.TIMES) and _c10_clean_under_ber(mod, plan))
+
+
+@classifier('f16_empty_optional_constructed_omitted')
+def f16(mod, plan, viol):
+    return (viol['sig'][0] == 'reencoding-decodes-to-other-value' and _c10_family(plan) in ('cer', 'der')
+            and _has_optional_constructed(plan['workload']['desc']) and _c10_clean_under_ber(mod, plan))
+
+
+@classifier('f19_time_fraction_zero_stripping')
+def f19(mod, plan, viol):
+    from simkit import universe as U
+    return (viol['sig'][0] == 'reencoding-decodes-to-other-value' and _c10_family(plan) in ('cer', 'der')
+            and U.has_kind(plan['workload']['desc'], ('GENTIME',)) and _c10_clean_under_ber(mod, plan))
+
+
+@classifier('f2_c10_stray_eoo')
+def f2_c10(mod, plan, viol):
+    from simkit import universe as U
+    return (viol['sig'][0] in ('reencoding-decodes-to-other-value', 'reencoding-not-decodable')
+            and _c10_family(plan) == 'cer' and U.has_exp_tagged_nonstring_prim(plan['workload']['desc'])
+            and _c10_clean_under_ber(mod, plan))
+
+
+@classifier('f22_any_accepts_non_tlv_octets')
+def f22(mod, plan, viol):
+    from simkit import universe as U
+    return (viol['sig'][0] in ('reencoding-not-decodable', 'reencoding-decodes-to-other-value')
+            and _c10_family(plan) == 'cer' and U.has_kind(plan['workload']['desc'], ('ANY',))
+            and _c10_clean_under_ber(mod, plan))
+
+
+@classifier('f23_chunked_character_string_recursion')
+def f23(mod, plan, viol):
+    from simkit import universe as U
+    if _c10_family(plan) != 'cer' or not U.has_kind(plan['workload']['desc'], U.CHARS + U.TIMES):
+        return False
+    if viol['sig'][0] == 'encoder-rejects-accepted-value' and viol['sig'][1] == 'RecursionError':
+        return True
+    # single-octet character sets: the fragments come out as OCTET STRINGs the decoder refuses
+    return viol['sig'][0] == 'reencoding-not-decodable' and _c10_clean_under_ber(mod, plan)
